@@ -8,7 +8,6 @@
 (*                                                                         *)
 (* IOEnv.TRACE: ndjson from `acverif steps`.  A "ctx" line describes a     *)
 (* searcher; a "run" line is one call with the events hook H5 recorded:    *)
-(*   ["S"]                start state computed                             *)
 (*   ["P", k, a, b, c]    the prefilter call before the loop answered      *)
 (*                        k = 0 none | 1 match (pattern a, span b..c)      *)
 (*                          | 2 possible start a                           *)
@@ -95,7 +94,6 @@ EventRulesOK(o) ==
 
 (* --------------------- following ACSearch's actions --------------------- *)
 Follow(o) ==
-    \/ /\ o[1] = "S" /\ pc = "start" /\ Start /\ UNCHANGED lastT
     \/ /\ o[1] = "P" /\ pc = "probe0" /\ Probe0 /\ UNCHANGED lastT
        /\ LET c == ToCand(o, 2) IN
           CASE c[1] = "none" -> pc' = "done" /\ res' = None
@@ -109,8 +107,13 @@ Follow(o) ==
 
 (* one event: the rules are checked; ACSearch takes the matching action, or, when it *)
 (* has none, the run is marked (once) and only the rules are checked from there on   *)
+(* computing the start state is not an event: it is taken as soon as the run is loaded *)
+SilentStart ==
+    /\ IsRun(t) /\ ok /\ pc = "start" /\ Start
+    /\ UNCHANGED <<t, l, lastT, ok>>
+
 Consume ==
-    /\ IsRun(t) /\ l <= Len(Ops)
+    /\ IsRun(t) /\ l <= Len(Ops) /\ ~(ok /\ pc = "start")
     /\ EventRulesOK(Ops[l])
     /\ l' = l + 1
     /\ IF ok /\ ENABLED Follow(Ops[l])
@@ -140,7 +143,8 @@ ResultOK ==
 NumT == Len(SelectSeq(Ops, LAMBDA o : o[1] = "T"))
 
 TFinish ==
-    /\ IsRun(t) /\ l = Len(Ops) + 1 /\ (~ok \/ ~ENABLED WindStep)
+    /\ IsRun(t) /\ l = Len(Ops) + 1
+    /\ IF ok THEN pc # "start" /\ ~ENABLED WindStep ELSE TRUE
     /\ IF E.out = "ok" /\ ResultOK THEN TRUE
        ELSE Report("REJECT", "result " \o ToString(E.res) \o " (" \o E.out \o ") differs from the oracle")
     /\ IF NumT <= (IF cfg.s <= cfg.e THEN cfg.e - cfg.s ELSE 0) THEN TRUE
@@ -152,7 +156,7 @@ TFinish ==
 
 Skip == /\ ~IsRun(t) /\ t <= Len(Rec) /\ LoadNext
 
-TNext == Consume \/ WindStep \/ TFinish \/ Skip
+TNext == SilentStart \/ Consume \/ WindStep \/ TFinish \/ Skip
 TSpec == TInit /\ [][TNext]_tvars
 
 (* ACSearch's invariants are evaluated in every state of the replay *)
